@@ -125,7 +125,11 @@ def main():
             data = p.spec_binary(vals)
             start = hl + 3 + padlen
             assert start == BUF - r
-            cuts = sorted(set(x for x in range(start - 2, start + L + 2) if 0 < x < len(data)))
+            cuts = set(x for x in range(start - 2, start + L + 2) if 0 < x < len(data))
+            # ... and cuts inside the padding string itself: one value that is larger than everything read so far (a bulk read of
+            # more bytes than the truncated stream holds)
+            cuts |= set(hl + 3 + (k * padlen) // 8 for k in range(1, 8)) | {hl + 4, hl + 3 + padlen - 1}
+            cuts = sorted(x for x in cuts if 0 < x < len(data))
             jobs.append(("probe", p, "binary", data, cuts, {"probe": p.name, "starts_before_boundary": r, "probe_bytes": p.case["enc"][0]}, None))
     # C, D
     for p in small:
